@@ -346,7 +346,9 @@ func surviveChild(a []string) string {
 				defer func() { <-sem; wg.Done() }()
 				conn, _, _, err := dialProxy(env, clientCfg{kind: "go", sni: "example.test", alpn: []string{"h2"}, peer: "127.0.0.1"})
 				if err == nil {
-					io.WriteString(conn, http2.ClientPreface)
+					if kv["pre"] != "0" {
+						io.WriteString(conn, http2.ClientPreface)
+					}
 					conn.Write(unhx(hb))
 					d := 1500 * time.Millisecond
 					if len(blobs) > 1 {
@@ -608,9 +610,39 @@ func init() {
 			c.tag("kind:rstinflight")
 			c.op(fmt.Sprintf("survive kind=rstinflight victims=12 gmp=%s", gmp))
 		}
-		// every HEADERS layout around the padding / priority boundaries, one connection each
+		// what a client that negotiated h2 sends INSTEAD of the connection preface: at least 24 octets with and without
+		// CR LF, an HTTP/1 request line (short, long), a preface with one octet changed or cut short and continued with
+		// something else, LF-only line ends, zero octets, random octets
+		{
+			pf := []byte(http2.ClientPreface)
+			var pre []string
+			add := func(b []byte) { pre = append(pre, hx(b)) }
+			add(make([]byte, 24))
+			add(make([]byte, 60))
+			add([]byte("GET / HTTP/1.1\r\nHost: example.test\r\n\r\n"))
+			add([]byte("GET /a/rather/long/path/that/fills/the/greeting HTTP/1.1\r\nHost: example.test\r\n\r\n"))
+			add([]byte("PRI * HTTP/2.0\n\nSM\n\n0123456789abcdef"))
+			add(bytes.Repeat([]byte("\r"), 30))
+			add(bytes.Repeat([]byte("\n"), 30))
+			for _, k := range []int{0, 1, 13, 14, 15, 16, 22, 23} {
+				m := append([]byte{}, pf...)
+				m[k] ^= 0x20
+				add(append(m, 0, 0, 0, 4, 0, 0, 0, 0, 0))
+				add(append(append([]byte{}, pf[:k]...), bytes.Repeat([]byte{'x'}, 40)...))
+			}
+			rr := c.rng.fork()
+			for k := 0; k < 8; k++ {
+				add(rr.bytes(rr.rangeI(24, 80)))
+			}
+			c.tag("kind:h2-instead-of-preface")
+			c.op("survive kind=h2bytes pre=0 hex=" + strings.Join(pre, ","))
+		}
+		// every padded / prioritised frame layout (DATA, HEADERS, PUSH_PROMISE) around the padding / priority boundaries,
+		// one connection each
 		var blobs []string
-		for _, fl := range []byte{0x08, 0x20, 0x28, 0x0c, 0x24, 0x2c, 0x2d, 0x09} {
+		for _, tf := range [][2]byte{{1, 0x08}, {1, 0x20}, {1, 0x28}, {1, 0x0c}, {1, 0x24}, {1, 0x2c}, {1, 0x2d}, {1, 0x09},
+			{0, 0x08}, {0, 0x09}, {0, 0x00}, {5, 0x08}, {5, 0x0c}, {5, 0x04}, {9, 0x04}, {9, 0x0c}} {
+			typ, fl := tf[0], tf[1]
 			for _, n := range []int{0, 1, 4, 5, 6, 7, 12, 17} {
 				pads := []int{0, 1, n - 7, n - 6, n - 5, n - 2, n - 1, n, n + 1, 255}
 				for _, pad := range pads {
@@ -621,7 +653,7 @@ func init() {
 					if n > 0 {
 						payload[0] = byte(pad)
 					}
-					fr := []byte{byte(n >> 16), byte(n >> 8), byte(n), 1, fl, 0, 0, 0, 1}
+					fr := []byte{byte(n >> 16), byte(n >> 8), byte(n), typ, fl, 0, 0, 0, 1}
 					blobs = append(blobs, hx(append(append([]byte{0, 0, 0, 4, 0, 0, 0, 0, 0}, fr...), payload...)))
 				}
 			}
@@ -631,7 +663,7 @@ func init() {
 			if j > len(blobs) {
 				j = len(blobs)
 			}
-			c.tag("kind:h2headers-layouts")
+			c.tag("kind:h2-padded-frame-layouts")
 			c.op("survive kind=h2bytes hex=" + strings.Join(blobs[i:j], ","))
 		}
 		for i := 0; i < c.count; i++ {
